@@ -515,6 +515,12 @@ class Pattern(Interp):
         data = [a for a in pos if not isinstance(a, (Closure, FuncRef, BoundMethod, ExtRef, ClassRef))]
         kw = [v for v in kwargs.values() if not isinstance(v, (Closure, FuncRef, ExtRef, ClassRef, BoundMethod))]
         allv = self.jn(*data, *kw)
+        if d == "numpy.transpose" and len(data) == 1 and not kw:
+            return self.h_attr(data[0], "T", n, env, ctx)            # np.transpose(x) is x.T
+        if d in ("numpy.sum", "numpy.all", "numpy.any", "numpy.max", "numpy.min", "numpy.amax", "numpy.amin", "numpy.count_nonzero") and data and isinstance(data[0], PV) \
+                and d.split(".")[-1] in ("sum", "all", "any", "max", "min"):
+            # np.sum(x, axis=0) is x.sum(axis=0): one treatment for both spellings
+            return self.h_call_method(data[0], d.split(".")[-1], n, list(pos[1:]), dict(kwargs), env, ctx)
         if d in ("filter", "map", "functools.reduce", "sorted", "max", "min") and (clos or isinstance(kwargs.get("key"), (Closure, FuncRef))):
             return self.higher_order(d, n, pos, kwargs, env, ctx)
         if d in api.TRUTHY_FUNCS:
